@@ -194,8 +194,9 @@ def finish(ctx, seed=0, verbose=True):
         os.makedirs(os.path.join(VERIF, "evidence"), exist_ok=True)
         with open(os.path.join(VERIF, "evidence", ctx.prop + ".json"), "w") as fh:
             json.dump(ev, fh, indent=1, sort_keys=True, default=str)
+    lines = []
     if verbose:
-        print(
+        lines.append(
             "%s static analysis [%s]: %d obligations, %d discharged, %d known, %d violations; %d functions, %d regexes, %d tables; %.2fs"
             % (
                 ctx.prop, ctx.tier, ctx.obligations, ctx.discharged, len(knowns), len(violations),
@@ -203,9 +204,14 @@ def finish(ctx, seed=0, verbose=True):
             )
         )
         for r, st in sorted(ctx.rule_stats.items()):
-            print("  rule %-4s %3d/%3d  %s" % (r, st["discharged"], st["obligations"], ctx.rules_doc.get(r, "")[:110]))
+            lines.append("  rule %-4s %3d/%3d  %s" % (r, st["discharged"], st["obligations"], ctx.rules_doc.get(r, "")[:110]))
         for nd in ctx.not_decided:
-            print("  not-decided %s: %s" % (nd["rule"], nd["what"]))
-    for line in out:
-        print(line)
+            lines.append("  not-decided %s: %s" % (nd["rule"], nd["what"]))
+    lines.extend(out)
+    try:
+        import sys
+        sys.stdout.write("\n".join(lines) + "\n")
+        sys.stdout.flush()
+    except BrokenPipeError:
+        pass
     return 1 if violations else 0
